@@ -228,6 +228,10 @@ detail::TypedArgBase*
    subGroup.setIsSubGroupHandler();
 
    const detail::ArgumentKey  key( arg_spec);
+
+   // arguments and sub-group arguments share the keys of this handler
+   mArguments.checkKeyUnused( key);
+
    auto  arg_hdl = new detail::TypedArgSubGroup( key, subGroup);
 
    arg_hdl->setKey( key);
@@ -1350,6 +1354,17 @@ detail::TypedArgBase* Handler::internAddArgument( detail::TypedArgBase* ah_obj,
 
    ah_obj->setKey( key);
    ah_obj->setConstraintsContainer( &mConstraints);
+
+   // arguments and sub-group arguments share the keys of this handler
+   // (the object is owned by this function: don't leak it when the key is refused)
+   try
+   {
+      mSubGroupArgs.checkKeyUnused( key);
+   } catch (...)
+   {
+      delete ah_obj;
+      throw;
+   } // end try
 
    mArguments.addArgument( ah_obj, key);
    mDescription.addArgument( desc, ah_obj);
